@@ -827,4 +827,143 @@ theorem grun_append (c : Cfg) : ∀ (g : G) (a b : List Op),
   | g, op :: a, b => by
     simp only [List.cons_append, grun, grun_append c _ a b]
 
+/-! ### Reservations under the thread lock -/
+
+/-- upper bound of what one request `(size, al)` adds to `pstack`. -/
+def cost (c : Cfg) (r : Nat × Nat) : Nat := r.1 + r.2 + 2 * c.rz
+def total (c : Cfg) : List (Nat × Nat) → Nat
+  | [] => 0
+  | r :: rest => cost c r + total c rest
+
+/-- what the requests add to `pstack` exactly (zero-size requests reserve nothing). -/
+def reserved (c : Cfg) : List (Nat × Nat) → Nat
+  | [] => 0
+  | (size, al) :: rest => (if size = 0 then 0 else size + al - 1 + 2 * c.rz) + reserved c rest
+
+/-- the blocks handed out (with the alignment that was asked for), in request order. -/
+def granted : List (Nat × Nat) → List Res → List (Block × Nat)
+  | (size, al) :: reqs, .ptr a :: rs => (⟨a, size⟩, al) :: granted reqs rs
+  | _ :: reqs, _ :: rs => granted reqs rs
+  | _, _ => []
+
+theorem lockedRun_cons (c : Cfg) (s : State) (size al : Nat) (rest : List (Nat × Nat)) :
+    lockedRun c s ((size, al) :: rest) =
+      ((stackAlloc c s size al).1 :: (lockedRun c (stackAlloc c s size al).2 rest).1,
+       (lockedRun c (stackAlloc c s size al).2 rest).2) := rfl
+
+theorem locked_core {c : Cfg} (hw : WFCfg c) : ∀ (reqs : List (Nat × Nat)) (s : State),
+    s.threadlock = true → s.parena ≤ c.narena → (∀ r ∈ reqs, 0 < r.2) → s.pstack + total c reqs < W →
+    (granted reqs (lockedRun c s reqs).1).Pairwise (fun x y => x.1.Disjoint y.1) ∧
+    (∀ x ∈ granted reqs (lockedRun c s reqs).1,
+      c.base + s.parena ≤ x.1.addr ∧ x.1.addr + x.1.size ≤ c.base + c.narena - s.pstack ∧
+      x.1.addr % x.2 = 0) ∧
+    (lockedRun c s reqs).2 = { s with pstack := s.pstack + reserved c reqs }
+  | [], s, _, _, _, _ => by
+    refine ⟨List.Pairwise.nil, fun x hx => ?_, ?_⟩
+    · simp [granted] at hx
+    · simp [lockedRun, reserved]
+  | (size, al) :: rest, s, hl, hpa, hal, hnw => by
+    have hw' := hw; unfold WFCfg at hw'
+    have hal0 : 0 < al := hal (size, al) (List.mem_cons_self ..)
+    have hal' : ∀ r ∈ rest, 0 < r.2 := fun r h => hal r (List.mem_cons_of_mem _ h)
+    simp only [total, cost] at hnw
+    rw [lockedRun_cons]
+    by_cases hsz : size = 0
+    · have e : stackAlloc c s size al = (.null, s) := by simp [stackAlloc, hsz]
+      rw [e]
+      have ih := locked_core hw rest s hl hpa hal' (by omega)
+      simp only [granted, reserved, hsz, ↓reduceIte, Nat.zero_add]
+      exact ih
+    · have hspec := lockedAlloc_spec (c := c) (s := s) (size := size) (al := al) (by omega) hl hpa
+        (by omega) hal0 (by omega)
+      have ih := locked_core hw rest { s with pstack := s.pstack + (size + al - 1 + 2 * c.rz) } hl hpa hal'
+        (by simp only; omega)
+      simp only at ih
+      have hres : s.pstack + (size + al - 1 + 2 * c.rz) + reserved c rest
+          = s.pstack + reserved c ((size, al) :: rest) := by
+        simp only [reserved, hsz, ↓reduceIte]; omega
+      split at hspec
+      · rw [hspec]
+        simp only [granted]
+        refine ⟨ih.1, fun x hx => ?_, by rw [ih.2.2, hres]⟩
+        have := ih.2.1 x hx
+        exact ⟨this.1, by omega, this.2.2⟩
+      · next hfit =>
+        obtain ⟨a, he, h1, h2, h3⟩ := hspec
+        rw [he]
+        simp only [granted]
+        refine ⟨List.Pairwise.cons (fun y hy => ?_) ih.1, fun x hx => ?_, by rw [ih.2.2, hres]⟩
+        · have := ih.2.1 y hy
+          exact Or.inr (by show y.1.addr + y.1.size ≤ a; omega)
+        · rcases List.mem_cons.1 hx with rfl | hr
+          · exact ⟨by show _ ≤ a; omega, by show a + size ≤ _; omega, h1⟩
+          · have := ih.2.1 x hr
+            exact ⟨this.1, by omega, this.2.2⟩
+
+/-- take the next request of thread `t` (if that thread exists and has one left). -/
+def popAt : List (List (Nat × Nat)) → Nat → Option ((Nat × Nat) × List (List (Nat × Nat)))
+  | [], _ => none
+  | [] :: _, 0 => none
+  | (x :: p) :: ps, 0 => some (x, p :: ps)
+  | p :: ps, t + 1 => (popAt ps t).map (fun r => (r.1, p :: r.2))
+
+/-- the order in which the fetch-adds of the threads' programs hit `d->pstack` under the schedule
+    `sched` (a list of thread indices; a step of a finished or non-existent thread is a no-op). -/
+def interleave : List (List (Nat × Nat)) → List Nat → List (Nat × Nat)
+  | _, [] => []
+  | progs, t :: sched =>
+    match popAt progs t with
+    | none => interleave progs sched
+    | some (x, progs') => x :: interleave progs' sched
+
+def totalAll (c : Cfg) : List (List (Nat × Nat)) → Nat
+  | [] => 0
+  | p :: ps => total c p + totalAll c ps
+
+theorem popAt_total (c : Cfg) : ∀ (progs : List (List (Nat × Nat))) (t : Nat) x progs',
+    popAt progs t = some (x, progs') →
+    totalAll c progs = cost c x + totalAll c progs' ∧ (∀ p ∈ progs', ∀ r ∈ p, (∃ q ∈ progs, r ∈ q)) ∧ (∃ q ∈ progs, x ∈ q)
+  | [], _, _, _, h => by simp [popAt] at h
+  | [] :: ps, 0, _, _, h => by simp [popAt] at h
+  | (y :: p) :: ps, 0, x, progs', h => by
+    simp only [popAt, Option.some.injEq, Prod.mk.injEq] at h
+    obtain ⟨rfl, rfl⟩ := h
+    refine ⟨by simp only [totalAll, total]; omega, ?_, ⟨_, List.mem_cons_self .., List.mem_cons_self ..⟩⟩
+    intro q hq r hr
+    rcases List.mem_cons.1 hq with rfl | hq'
+    · exact ⟨_, List.mem_cons_self .., List.mem_cons_of_mem _ hr⟩
+    · exact ⟨q, List.mem_cons_of_mem _ hq', hr⟩
+  | p :: ps, t + 1, x, progs', h => by
+    simp only [popAt, Option.map_eq_some_iff] at h
+    obtain ⟨⟨x', ps'⟩, hpop, he⟩ := h
+    simp only [Prod.mk.injEq] at he
+    obtain ⟨rfl, rfl⟩ := he
+    have ih := popAt_total c ps t x' ps' hpop
+    refine ⟨by simp only [totalAll]; omega, ?_, ?_⟩
+    · intro q hq r hr
+      rcases List.mem_cons.1 hq with rfl | hq'
+      · exact ⟨_, List.mem_cons_self .., hr⟩
+      · obtain ⟨q', hq'', hr'⟩ := ih.2.1 q hq' r hr
+        exact ⟨q', List.mem_cons_of_mem _ hq'', hr'⟩
+    · obtain ⟨q', hq'', hr'⟩ := ih.2.2
+      exact ⟨q', List.mem_cons_of_mem _ hq'', hr'⟩
+
+theorem interleave_total (c : Cfg) : ∀ (sched : List Nat) (progs : List (List (Nat × Nat))),
+    total c (interleave progs sched) ≤ totalAll c progs ∧
+    ∀ r ∈ interleave progs sched, ∃ q ∈ progs, r ∈ q
+  | [], _ => ⟨Nat.zero_le _, fun r h => by simp [interleave] at h⟩
+  | t :: sched, progs => by
+    simp only [interleave]
+    cases h : popAt progs t with
+    | none => exact interleave_total c sched progs
+    | some r =>
+      obtain ⟨x, progs'⟩ := r
+      have hp := popAt_total c progs t x progs' h
+      have ih := interleave_total c sched progs'
+      refine ⟨by simp only [total]; omega, fun r hr => ?_⟩
+      rcases List.mem_cons.1 hr with rfl | hr'
+      · exact hp.2.2
+      · obtain ⟨q, hq, hrq⟩ := ih.2 r hr'
+        exact hp.2.1 q hq r hrq
+
 end MjProof.Arena
